@@ -117,6 +117,7 @@ def tie_stage(spec, data, tier, seed):
         reg.lines = list(data["prof_lines"])
         st = fuzzlib.compare_batch(L, reg, [(l, e) for (_, _, l, e) in pairs])
         d = st.as_dict()
+        d["name"] = name
         d["source"] = "whole-run calls"
         d["ulp_ties"] = 0
         if st.bad:
@@ -128,8 +129,10 @@ def tie_stage(spec, data, tier, seed):
                 if not proto.compare(e, L.trim_reply(o))[0] and sid not in bad_scens:
                     bad_scens.append(sid)
             with rec.SharedLibm():
-                st2, _ = fuzzlib.whole_runs([L], 0, seed, scenarios=[scen_by_id[s] for s in bad_scens if s in scen_by_id])
-            st2 = st2[L.NAME]
+                d2 = collect.collect([scen_by_id[s] for s in bad_scens if s in scen_by_id])
+            reg2 = proto.ProfRegistry()
+            reg2.lines = list(d2["prof_lines"])
+            st2 = fuzzlib.compare_batch(L, reg2, [(l, e) for (_, _, l, e) in d2["pairs"].get(name, [])])
             if st2.bad == 0 and st2.calls > 0:
                 d["ulp_ties"] = st.bad
                 d["disagreements"] = 0
